@@ -229,6 +229,22 @@ CHECKS = {
              'answers make the flow true and "no solution" only when none exists.',
         note=TB + ' The flow solver is not modelled in Coq; obs[...] terms are not generated.',
         design='§4 C14'),
+    'C13': dict(
+        technique='translator (simplifier decomposition tables -> Gallina, proved equal to the gate table) + oracle: original and rewritten '
+                  'circuit compared in distribution on the Choi state of the Coq-extracted specification via the verified GF(2) solver',
+        text='Proof (tie G): every case of Simplifier::simplify_disjoint_1q/2q_instruction is regenerated from simplified_circuit.cc as a list '
+             'of emitted gates; simp_all_ok = true by vm_compute: unitary entries compose to the table action with exact signs (lifted to '
+             'strings and target lists of any length), measurement entries conjugate the measured observable onto +Z of the measured qubit '
+             'and back and keep arguments and result inversion, reset entries prepare the documented state, every fixed-action gate is '
+             'covered. table_inverse_is_inverse; Equiv.affine_image_included (span memberships => inclusion of outcome sets); solver '
+             'soundness/completeness. Tie O: random circuits (all gates, aliases, inverted/overlapping targets, pair and product '
+             'measurements, feedback, sweep controls, nested REPEAT, every noise channel, tags, deterministic annotations) x '
+             'decomposed/flattened/inverse/without_noise/without_tags/with_inlined_feedback/time_reversed_for_flows: original and result '
+             'run on one Bell pair per qubit in Spec.srun with identical fault/sweep variables; (record, detectors, observables, final '
+             'stabilizer signs) must be equal in distribution for every value of the shared variables (only detectors/observables for '
+             'inlined feedback); noise processes identical; structural demands per rewrite; reversed flows re-checked on the Choi state.',
+        note=TB + ' The rewriting code other than the decomposition tables is tied by the oracle only; detector coordinates are not compared.',
+        design='§4 C13'),
 }
 
 PENDING = 'check not yet built in this round (see DESIGN.md §7 phasing); the Coq model for it is planned, not claimed'
